@@ -60,6 +60,7 @@ def profile(name):
                            'block': 0.5, 'unblock': 0.5, 'rewire': 0.1})
         p['p_maintainer'] = 0.9
         p['p_ct_script'] = 0.4
+        p['p_finish_offset'] = 0.35
         p['p_same_instant'] = 0.5
     elif name == 'routing':       # C08
         p['stage_w'].update({'gates': 3.5, 'group': 3.5, 'nested_group': 1.2, 'flow': 1.2, 'batcher': 0.7})
@@ -194,6 +195,8 @@ class Gen:
             it['ct_script'] = [rng.choice(self.p['cts']) for _ in range(rng.randint(2, 4))]
         if rng.random() < self.p['p_value_cb']:
             it['value_add'] = rng.choice([0.5, 1, -0.25, 2])
+        if rng.random() < self.p.get('p_finish_offset', 0.1):
+            it['finish_offset'] = [rng.choice([1, 2, 3]), rng.choice([0.5, 1, -0.5, 0.25, -5])]
         if rng.random() < 0.25:
             it['quality_mul'] = rng.choice([0.5, 1, 0.75])
         if rng.random() < 0.85:
